@@ -195,6 +195,63 @@ def corr(ctx):
                          f"{'Leak' if predicted_leak else 'no leak'}",
                          {"kind": "history", "history": [by_id[i] for i in h] if h else None, "probe": p}, sig, "Leak" if predicted_leak else "independent")
     ctx.sample({"probes": wanted, "fresh_runs": len(fresh_ids), "histories": sum(len(probes[p]) for p in wanted)})
+    corr_cells(ctx, items)
+
+
+CELLS = ["HTMLTranslator.visit_rubric", "HTMLTranslator.depart_rubric", "HTMLTranslator.visit_container", "HTMLTranslator.depart_container",
+         "roles._roles['']", "roles._roles.pop", "functools.lru_cache", "Include.option_spec", "directive_class.option_spec['heading-offset']"]
+
+
+def corr_cells(ctx, items):
+    """Extracted model vs real process, on the contents of the process-level cells: random histories are run through
+    the extracted Coq model (cell states before the first and after every parse) and through the implementation (the
+    real objects are dumped at the same points).  Whenever the model says a cell has the same content at two points of
+    a history, the real cell must have the same content there: constant cells reach their fixed value with the first
+    parse and keep it, restored cells and cells the package does not write never change, the memo table only changes
+    when a new input is parsed."""
+    if not ctx.have_runner:
+        return
+    from lib.common import enc_strs, model_run
+    rng = ctx.rng
+    pool = [it for it in items if not it.get("writer")]
+    num = {it["id"]: k for k, it in enumerate(pool)}
+    hists = []
+    for _ in range(ctx.budget(16, 120, 60)):
+        hists.append([pool[rng.randrange(len(pool))] for _ in range(rng.randint(3, 10))])
+    # histories that repeat inputs (the model then predicts an unchanged memo table)
+    for _ in range(ctx.budget(6, 40, 20)):
+        a, b = pool[rng.randrange(len(pool))], pool[rng.randrange(len(pool))]
+        hists.append([a, b, a, b, b, a])
+    real = pool_map(_hist_job, [[dict(it, dump_cells=True) for it in h] for h in hists])
+    classes = model_run(PID, ["classes\t" + enc_strs(CELLS)])[0].split(";")
+    lines = ["trace\t%s\t%s" % (enc_strs(CELLS), ",".join(str(num[it["id"]]) for it in h)) for h in hists]
+    model = model_run(PID, lines)
+    for h, r, m in zip(hists, real, model):
+        ctx.corr_cases += 1
+        if any("cells" not in x for x in r):
+            ctx.count("cells:history-with-exception")
+            continue
+        mstates = [st.split("/") for st in m.split(" ")]
+        rstates = [r[0]["cells_before"]] + [x["cells"] for x in r]
+        if len(mstates) != len(rstates):
+            ctx.disagree("cell trace: model and implementation give a different number of states", {"kind": "history", "history": h}, len(rstates), len(mstates))
+            continue
+        ctx.nontriv(("cells", tuple(it["id"] for it in h)))
+        for ci, cell in enumerate(CELLS):
+            for p in range(len(mstates)):
+                for q in range(p + 1, len(mstates)):
+                    if mstates[p][ci] == mstates[q][ci] and rstates[p][cell] != rstates[q][cell]:
+                        ctx.count("cells:disagree:" + cell)
+                        ctx.disagree(f"cell {cell!r} (class {classes[ci]}): the model has the same content after {p} and after {q} parses, "
+                                     "the real object differs",
+                                     {"kind": "history", "history": [dict(it) for it in h[:q]], "probe": "cells"},
+                                     {"after_%d" % p: rstates[p][cell], "after_%d" % q: rstates[q][cell]}, mstates[p][ci])
+                        break
+                else:
+                    continue
+                break
+        ctx.count("cells:histories")
+    ctx.sample({"cell_trace_example": {"history": [it["id"] for it in hists[0]], "model": model[0][:300], "classes": dict(zip(CELLS, classes))}})
 
 
 # ------------------------------------------------------------------------------------------------ search
@@ -233,6 +290,20 @@ def search(ctx):
                   ["role-def-rst", "role-use"], ["lang-bogus", "lang-bogus-2"]):
         jobs.append([by_id[i] for i in fixed])
         meta.append(("hist", fixed))
+    # one-field configuration deltas: same document, same path, configurations that differ in exactly one field (A,B,B,A)
+    import importlib.util
+    deltas, uncovered = c15_items.config_delta_histories(importlib.util.find_spec("linkify_it") is not None)
+    for field, hist in deltas:
+        for it in hist:
+            by_id.setdefault(it["id"], it)
+        jobs.append(hist)
+        meta.append(("hist", [it["id"] for it in hist]))
+        ctx.count("delta-history:" + field)
+    for i in sorted({it["id"] for _, hist in deltas for it in hist}):
+        jobs.append([by_id[i]])
+        meta.append(("fresh", [i]))
+    if uncovered:
+        ctx.notes.append("configuration fields without a second value for the one-field delta histories: " + ", ".join(uncovered))
     n_hist = ctx.budget(48, 600, 300)
     hlen = ctx.budget(25, 40, 40)
     for _ in range(n_hist):
